@@ -147,9 +147,12 @@ impl MonoMidiReceiver {
                     CC_ALL_CONTROLLERS_OFF => self.reset_controllers(),
                     CC_ALL_NOTES_OFF => {
                         self.held_down_notes.clear();
+                        // the gate falls only if it was high
+                        if self.gate {
+                            self.falling_gate = true;
+                        }
                         self.gate = false;
                         self.rising_gate = false;
-                        self.falling_gate = false;
                     }
                     _ => (), // ignore all other MIDI CC messages
                 }
@@ -182,9 +185,12 @@ impl MonoMidiReceiver {
         self.held_down_notes.retain(|n| *n != note);
 
         if self.held_down_notes.is_empty() {
+            // the gate falls only if it was high, a note-off with nothing held is not a falling edge
+            if self.gate {
+                self.falling_gate = true;
+            }
             self.gate = false;
             self.rising_gate = false;
-            self.falling_gate = true;
         } else {
             // we know that there is at least one element in the vec
             self.note_num = self.choose_next_note();
